@@ -81,7 +81,7 @@ def run(chk):
         "obligations": pr["obligations"], "discharged": pr["discharged"], "axioms": pr["axioms"],
         "checker_cmd": "cd lean && lake build %s" % MODULE, "trusted_base": TRUSTED_BASE, "forbidden_constructs": pr["forbidden_constructs"],
         "evaluations": len(ops), "distinct_nontrivial": len(nontrivial), "exhaustive": True, "workloads": len(cases),
-        "rule": "for every workload (8 structs x 3 codecs, histories with several row groups, empty writes, pending records) the sink fails at its k-th Write call for EVERY k in 1..total (exhaustive), in each of the three ways an io.Writer may fail: (0, err), (len/2, err) after taking half of the bytes, (len, err) after taking all of them, with the sink staying broken afterwards or failing only that once (transient); the API call predicted by the model's per-call write list must return a non-nil error, earlier calls complete with exactly the model's number of writes, nothing panics; non-trivial = distinct (workload, k) reported correctly",
+        "rule": "for every workload (8 structs x 3 codecs, histories with several row groups, empty writes, pending records) the sink fails at its k-th Write call for EVERY k in 1..total (exhaustive), in each of the three ways an io.Writer may fail: (0, err), (len/2, err) after taking half of the bytes, (len, err) after taking all of them, with the sink staying broken afterwards or failing only that once (transient); the API call predicted by the model's per-call write list must return a non-nil error, earlier calls complete with exactly the model's number of writes, nothing panics — including the Close() a caller still makes after the failed call; non-trivial = distinct (workload, k) reported correctly",
         "samples": [ops[0][:200], ops[len(ops) // 2][:200]],
         "tie": "exact: number of sink writes per API call = model's runWriter; outcome per failing index = model's failingCall",
         "tie_disagreements": len(tie_breaks), "property_failures_on_impl": len(prop_fail),
